@@ -88,7 +88,7 @@ class bin_stream(object):
 
         # Get initial bytes
         if n > self.getlen() * 8:
-            raise IOError('not enough bits %r %r' % (n, len(self.bin) * 8))
+            raise IOError('not enough bits %r %r' % (n, self.getlen() * 8))
         byte_start = start // 8
         byte_stop = (start + n + 7) // 8
         temp = self.getbytes(byte_start, byte_stop - byte_start)
